@@ -7,6 +7,28 @@ VERIF = Path(__file__).resolve().parent.parent
 
 # id -> (implemented, category, technique, level text, level note, design ref)
 P = {
+    'C08': (True, 'exploration',
+            'reference graph model vs real chains built in separate processes (names, input bindings by object identity, edges, closures, construction errors)',
+            'Generated pipelines with every documented input form over namespace trees (incl. the same file mounted twice, multi-config #part references, '
+            'excluded/abstract classes, confusable names) are built by the real Chain in a worker process; task set, per-task input bindings, graph edges and '
+            'required/dependent closures of every task are compared with an independent reference model; 30% of cases carry one injected dangling input or '
+            '1-/2-/3-cycle and must fail at construction (both modes).',
+            'Reference semantics = DESIGN.md Appendix A; don\'t-care zones listed in the evidence assumptions; pattern inputs not yet generated.',
+            'DESIGN.md §3 C08'),
+    'C09': (True, 'exploration',
+            'reference precedence model vs Task.params of real chains + aliasing monitor on caller-owned contexts',
+            'Generated config trees x contexts of every kind (dict, file, Context, lists, for_namespaces, nested `uses ... as ns` two levels deep) are built by the '
+            'real code; every parameter value of every task is compared (typed) with the reference precedence; injected missing/mistyped values and same-namespace '
+            'task conflicts must fail at construction; one context object handed to two Configs must stay deep-equal and share no mutable values.',
+            'Values of persistence-excluded parameters are not compared on tasks that coincide with another task of the chain (shared object by design).',
+            'DESIGN.md §3 C09'),
+    'C12': (True, 'exploration',
+            'frozen independent implementation of the 1.4.0 layout/key scheme + golden vectors vs name_for_persistence/data_path/files on disk',
+            'For every task of generated chains (all group forms, namespaces, data classes, adversarial string values, parameter objects, Path parameters; '
+            'parameter and name mode) key and location are compared with refscheme.py; all tasks are then computed and every file under the data directory must be '
+            'at a frozen location; 600 committed golden vectors pin refscheme itself.',
+            'Assumes pinned tree == release 1.4.0 for layout and key derivation (no 1.4.0 artefact offline).',
+            'DESIGN.md §3 C12'),
     'C06': (True, 'exploration',
             'typed deep-equality monitor across run / computing chain / fresh chain / fresh interpreter + stored-file hash monitor',
             'One real task per generated value of every storable data class in the statement; the value run returned, the value the computing chain '
